@@ -283,6 +283,23 @@ inline void prop_reg(const vf::Case& c, Ctx& ctx)
                 VF_CHECK(threw, sname(sc) << ": playlist_table::remove of an unknown id silently succeeded");
             }
             break;
+        case 14:  // F33 (open): 1.x hands the id of the removed newest crate / track out again
+            for_schemas(true, true, [&](e::engine_schema sc) {
+                auto db = e::create_temporary_database(sc);
+                auto a = db.create_root_crate("A");
+                auto b = db.create_root_crate("B");
+                int64_t removed = b.id();
+                db.remove_crate(b);
+                auto n = db.create_root_crate("N");
+                VF_CHECK(n.id() != removed, sname(sc) << ": the id " << removed << " of a removed crate was issued again (a stale handle to it is valid again)");
+                auto t1 = db.create_track(minimal_snapshot("a/1.mp3"));
+                auto t2 = db.create_track(minimal_snapshot("a/2.mp3"));
+                int64_t removed_t = t2.id();
+                db.remove_track(t2);
+                auto t3 = db.create_track(minimal_snapshot("a/3.mp3"));
+                VF_CHECK(t3.id() != removed_t, sname(sc) << ": the id " << removed_t << " of a removed track was issued again");
+            });
+            break;
         default: break;
     }
 }
